@@ -209,6 +209,17 @@ func body(c cfg) func() {
 			}
 			verifrt.Logf("OUT events=%v final=%s", vEvents, final)
 		case "id":
+			// a scenario that removes the item and creates it again: the subscription either ends with the removal
+			// or - the removal and the creation having reached it as one replacement - goes on, and then it has to
+			// arrive at the new item's value like after any other change
+			recreates := false
+			for _, w := range c.writers {
+				for _, o := range w {
+					if strings.HasPrefix(o, "ups:a:") {
+						recreates = true
+					}
+				}
+			}
 			m, ok := col.Get("a", gopts...)
 			final := "-"
 			if ok {
@@ -219,9 +230,11 @@ func body(c cfg) func() {
 				last = vEvents[len(vEvents)-1]
 			}
 			switch {
+			case ended && ok && recreates:
+				// the subscription ended with the removal; the item that exists now is another one
 			case ended && ok:
 				// the channel closes when the item is removed; a later re-creation is not followed
-				// (the scenarios never re-create), so an ended subscription means: absent
+				// (these scenarios never re-create), so an ended subscription means: absent
 				verifrt.Logf("FAIL ended-but-present %s ## PullID channel closed although the item exists (%s); events %v", name, final, vEvents)
 			case !ended && !ok:
 				// nothing delivered = the view says "absent", which is what the store says
@@ -327,7 +340,8 @@ func main() {
 							ws = append(ws, [][]string{{"ups:b:1"}, {"upd:a:2", "del:b"}})
 						}
 					case "id":
-						ws = [][][]string{{{"upd:a:1", "upd:a:2"}}, {{"upd:a:1", "del:a"}}, {{"upd:a:1"}, {"upd:a:2"}}, {{"upd:a:1"}, {"del:a"}}}
+						ws = [][][]string{{{"upd:a:1", "upd:a:2"}}, {{"upd:a:1", "del:a"}}, {{"upd:a:1"}, {"upd:a:2"}}, {{"upd:a:1"}, {"del:a"}},
+							{{"del:a", "ups:a:2"}}, {{"upd:a:1", "del:a", "ups:a:2"}}} // removed and created again
 					}
 					if uo && !mask && kind != "id" {
 						// one single-writer program once more, next to a subscriber that leaves
